@@ -58,7 +58,13 @@
  *   resolvconf=<path>   ARES_OPT_RESOLVCONF (default /dev/null)
  *   localdomain=<a,b> resoptions=<o1,o2> hostaliases=<path>   environment for this case
  *                       (commas become spaces for the first two)
- *   localip4=<a> localip6=<a> localdev=<name>   ares_set_local_*  (exercise BIND/SETSOCKOPT)
+ *   writefile=<path>:<hex>   create a file before the channel is initialised (e.g. the
+                      resolv.conf named by resolvconf=; with servers=0 and no csv= the
+                      servers then come from its nameserver lines).  A path "@/name" (also
+                      in resolvconf= and hosts=) lives in $VERIF_SIM_DIR (default "."),
+                      prefixed with the process id, and is removed at the end of the case;
+                      nameserver addresses of the content get srv= indexes.
+  localip4=<a> localip6=<a> localdev=<name>   ares_set_local_*  (exercise BIND/SETSOCKOPT)
  *   sockstatecb=1       register ARES_OPT_SOCK_STATE_CB, log SOCKSTATE
  *   pendingwritecb=1    ares_set_pending_write_cb, log PENDINGWRITE (see op flushwrites)
  *   serverstatecb=1     ares_set_server_state_callback, log SERVERSTATE
@@ -113,6 +119,7 @@
  *   setsortlist <a/m,b/m>        ares_set_sortlist
  *   setlocalip4 <a> | setlocalip6 <a> | setlocaldev <name>
  *   flushwrites                  ares_process_pending_write (FLUSHWRITES begin .. end)
+  writefile <path> <hex|->     (re)write a file (see writefile= above), e.g. before reinit   (WRITEFILE)
  * Time and processing:
  *   adv <ms> | advus <us>        advance the virtual clock (NOW <ms>.<us>)
  *   tmo [<maxms>]                ares_timeout(channel, maxtv|NULL, &tv):
@@ -142,8 +149,8 @@
  *                byte k flipped; both followed by the server cookie)
  *        from=<addr[:port]> (UDP source address; default the socket's peer)
  *        on=s<k> (deliver on another socket)  dup=<n> (n copies)  trunc=<n> (cut to n bytes)
- *      <rrs> = RR+RR+..., RR = TYPE:rdata[:ttl][@owner]   (ttl default 300, owner default
- *      the question name).  A:<ip4>  AAAA:[<ip6>] (unbracketed only with a ttl)  NS|CNAME|
+ *      <rrs> = RR+RR+..., RR = TYPE:rdata[:ttl][@owner][@@class]   (ttl default 300, owner default
+ *      the question name, class default IN; @@CH, @@HS, @@NONE, @@<number>).  A:<ip4>  AAAA:[<ip6>] (unbracketed only with a ttl)  NS|CNAME|
  *      PTR:<name>  TXT:<text>|=<hex>  MX:<pref>:<name>  SRV:<prio>:<weight>:<port>:<target>
  *      SOA:<minimum> or SOA:<mname>:<rname>:<serial>:<refresh>:<retry>:<expire>:<minimum>
  *      HINFO:<cpu>:<os>  CAA:<crit>:<tag>:<value>  URI:<prio>:<weight>:<target>
@@ -248,7 +255,8 @@
  *        channel->all_queries (id, token if the callback argument is one of ours, socket the
  *        query is assigned to, using_tcp, try_count, cookie_try_count, timeouts, no_retries), the
  *        per-server cookie record (servers in configuration order) and the open connections.
- *        Evaluated after every top level op and at every arecvfrom call (i.e. before a read
+ *        Evaluated after every top level op, at every asendto call (a query created inside a
+ *        callback shows up before its transmission) and at every arecvfrom call (i.e. before a read
  *        batch); printed only when the text differs from the last QSTATE printed - an absent
  *        line means "unchanged".
  *   ALLOCFAIL at=<n>                     the n-th counted allocation returned NULL
